@@ -66,7 +66,9 @@ Verdict(r, cfg) ==
     ELSE IF r.origin = "ctl" THEN Reject("c3", 400)
     ELSE IF r.sid \in {"unknown", "closed"} THEN Reject("c1", 400)
     ELSE IF r.sid = "known-other" /\ ~r.upgrade THEN Reject("c3", 400)
-    ELSE IF r.sid \in {"known-same", "known-other"} THEN Admit
+    \* ("closing": a registered polling session on which the application has called Close, the close packet waiting for the next poll -
+    \*  it is known, and bound to polling, until it has closed)
+    ELSE IF r.sid \in {"known-same", "known-other", "closing"} THEN Admit
     ELSE IF r.method # "GET" THEN Reject("c2", 400)
     ELSE IF r.transport = "websocket" /\ ~r.upgrade THEN Reject("c3", 400)
     ELSE IF r.hook = "deny" THEN Reject("c4", 403)
@@ -83,6 +85,7 @@ Unspecified(r, cfg) ==
     \/ r.upgrade /\ TransportOK(r, cfg) /\ r.transport # "websocket"   \* a websocket upgrade request that names the polling transport
     \/ r.upgrade /\ r.origin = "ctl"                          \* an HTTP/1.1 server never parses such an upgrade request (refused before the engine)
     \/ r.transport = "repeated"                               \* a repeated query parameter: which value counts is not documented
+    \/ r.sid = "closing" /\ (r.transport # "polling" \/ r.upgrade \/ r.method \notin {"GET", "POST"})   \* only plain polling requests are studied for it
 
 \* ---------------------------------------------------------------- cells
 CONSTANTS Attach, Shapes, RouteMethods, Methods, Transports, Sids, Eios, Origins, Upgrades, Hooks, Mws, Enabled, Eio3s, Mode, Emit
@@ -126,4 +129,6 @@ AdmitObsOK(c, o) ==
        ELSE /\ o.connErr = 0 /\ ~o.disturbed
             /\ o.created = (c.sid = "absent")
             /\ o.status \notin {400, 403}
+            \* the poll a closing session was waiting for carries its close packet and ends it
+            /\ (c.sid = "closing" /\ c.method = "GET" => o.status = 200 /\ o.closingEnded)
 =============================================================================
